@@ -711,7 +711,7 @@ DISTINCT_TEMPLATES = {
                                                                     'TIME := T#1s', 'TIME := T#2s', 'TIME := T#1ms', 'TIME := T#1m', 'TIME := T#1h', 'TIME := T#1d', 'TIME := T#-1s', 'DATE := D#2020-01-01', 'DATE := D#2020-01-02', 'DATE := D#2020-02-01', 'DATE := D#2021-01-01',
                                                                     'TOD := TOD#01:02:03', 'TOD := TOD#01:02:04', 'TOD := TOD#01:03:03', 'TOD := TOD#02:02:03', 'DT := DT#2020-01-01-01:02:03', 'DT := DT#2020-01-02-01:02:03', "STRING := 'a'", "STRING := 'b'", "STRING := 'ab'", 'WSTRING := "a"',
                                                                     'BYTE := BYTE#1', 'WORD := WORD#1', 'BYTE := BYTE#16#FF']), ';\nEND_VAR\nEND_FUNCTION_BLOCK\n'],
-    'located_and_access': ['PROGRAM p\nVAR\n  x ', ('alt', ['AT %IX1', 'AT %IX2', 'AT %QX1', 'AT %MX1', 'AT %IW1', 'AT %IB1', 'AT %ID1', 'AT %IL1', 'AT %IX1.2', 'AT %IX1.3', 'AT %I1', 'AT %I*']), ' : BOOL;\nEND_VAR\n',
+    'located_and_access': ['PROGRAM p\nVAR', ('alt', ['', ' CONSTANT', ' RETAIN', ' NON_RETAIN']), '\n  x ', ('alt', ['AT %IX1', 'AT %IX2', 'AT %QX1', 'AT %MX1', 'AT %IW1', 'AT %IB1', 'AT %ID1', 'AT %IL1', 'AT %IX1.2', 'AT %IX1.3', 'AT %I1']), ' : BOOL;\nEND_VAR\n',
                            ('opt', 'VAR_ACCESS\n  ac : r.p.x : INT READ_WRITE;\nEND_VAR\n'), ('opt', 'VAR_ACCESS\n  ac : r.p.x : INT READ_ONLY;\nEND_VAR\n'), 'END_PROGRAM\n'],
     'array_initial_values': ['FUNCTION_BLOCK fb\nVAR\n  v : ARRAY[1..4] OF INT := [', ('alt', ['1, 2', '2, 1', '2(0)', '3(0)', '2(1)', '1, 2(0)', '2(0), 1', '1', '1, 2, 3']), '];\nEND_VAR\nEND_FUNCTION_BLOCK\n'],
     'structure_initialisers': ['FUNCTION_BLOCK fb\nVAR\n  v : sty := (', ('alt', ['a := 1', 'a := 2', 'b := 1', 'a := 1, b := 2', 'a := 1, b := 3', 'a := (c := 1)', 'a := (c := 2)', 'a := red', 'a := TRUE']), ');\nEND_VAR\nEND_FUNCTION_BLOCK\n'],
